@@ -37,6 +37,8 @@ thread_local! {
 pub fn install_panic_hook() {
     std::panic::set_hook(Box::new(|info| {
         let msg = format!("{info}");
+        // (also on stderr: when it is the harness itself that panics, the driver shows the tail of stderr)
+        eprintln!("panic: {}", msg.chars().take(300).collect::<String>());
         LAST_PANIC.with(|p| *p.borrow_mut() = msg.chars().take(300).collect());
     }));
 }
@@ -290,6 +292,9 @@ fn parse_strace(text: &str, dest: &Path) -> Vec<Value> {
         let Some(par) = line.find('(') else { continue };
         let call = &line[..par];
         let Some(eq) = line.rfind(" = ") else { continue };
+        if eq <= par {
+            continue; // not a "call(args) = result" line (signal information, resumed calls, ...)
+        }
         let args = &line[par + 1..eq];
         let ret = line[eq + 3..].trim();
         let ok = !ret.starts_with('-');
@@ -426,6 +431,7 @@ impl Runner {
         self.counter = 0;
         self.scen_id = sc["id"].as_str().unwrap_or("?").to_string();
         self.rt_flavor = sc.get("rt").and_then(|x| x.as_str()).unwrap_or("ct").to_string();
+        tree::NOW_BASE.store(now_s() as i64, std::sync::atomic::Ordering::SeqCst);
         tree::BIG.store(sc.get("mode").and_then(|x| x.as_str()) == Some("big"), std::sync::atomic::Ordering::SeqCst);
         self.log.emit(json!({"ev": "scenario", "id": self.scen_id, "props": sc.get("props").cloned().unwrap_or(json!([])),
                              "mode": sc.get("mode").and_then(|x| x.as_str()).unwrap_or("clean")}));
@@ -511,6 +517,10 @@ impl Runner {
     fn do_new_archive(&mut self, st: &Value) {
         if let Some(f) = st.get("rt").and_then(|x| x.as_str()) {
             self.rt_flavor = f.to_string();
+        }
+        // (a replay may start later on the wall clock than the one before it)
+        if let Some(ms) = st.get("sleep_ms").and_then(|x| x.as_u64()) {
+            std::thread::sleep(std::time::Duration::from_millis(ms));
         }
         tree::remove_tree(&self.arch);
         self.log.emit(json!({"ev": "new_archive", "rt": self.rt_flavor}));
@@ -661,6 +671,11 @@ impl Runner {
         let mon2 = mon.clone();
         let ch2 = changes.clone();
         let excl2 = excl.clone();
+        // the source changing under the backup: when the change callback fires for `after`, the file
+        // `path` (relative to the source) is cut to `len` bytes, or removed when len < 0
+        let during: Vec<(String, PathBuf, i64)> = st.get("mutate_during").and_then(|x| x.as_array()).map(|a| {
+            a.iter().filter_map(|m| Some((m["after"].as_str()?.to_string(), src_dir.join(m["path"].as_str()?.trim_start_matches('/')), m["len"].as_i64()?))).collect()
+        }).unwrap_or_default();
         let out = run_call(&self.rt_flavor, &mon, || async move {
             let archive = Archive::open(t).await.map_err(|e| err_name(&e))?;
             let exclude = Exclude::from_strings(excl2.iter()).map_err(|e| err_name(&e))?;
@@ -674,6 +689,15 @@ impl Runner {
                     let v = serde_json::to_value(ec).unwrap_or(json!({}));
                     ch2.lock().unwrap().push(json!({"p": tree::comps_of(v["apath"].as_str().unwrap_or("/")),
                                                     "ch": v["change"].as_str().unwrap_or("?")}));
+                    for (after, path, len) in &during {
+                        if v["apath"].as_str() == Some(after.as_str()) {
+                            if *len < 0 {
+                                let _ = fs::remove_file(path);
+                            } else if let Ok(f) = fs::OpenOptions::new().write(true).open(path) {
+                                let _ = f.set_len(*len as u64);
+                            }
+                        }
+                    }
                     Ok(())
                 })),
             };
